@@ -223,7 +223,7 @@ func init() {
 		Simulated:   []string{"child-VM sync.Pool policy", "host functions (call, callrep, op, choose) and their failures"},
 		Runs: func(tier string) int {
 			if tier == "thorough" {
-				return 40000000
+				return 3000000
 			}
 			return 40000
 		},
